@@ -180,6 +180,28 @@ Example C20_transfer_faults :
   = [Open RSock; Open RFile; Blocks; Close RFile; Close RSock; ThreadEnd true].
 Proof. split; vm_compute; reflexivity. Qed.
 
+(* where an exception may leave the transfer thread at all: only after an environment fault (a failing send
+   of the final ERROR packet, a failing size computation, a failing close of the file).  Without such a fault
+   the clause transfer_thread_ends_cleanly demands "none"; with one it accepts both outcomes, and the other
+   clauses (socket closed once, file closed, thread ended) are demanded in either case *)
+Theorem C20_transfer_clean_without_faults : forall e : env,
+  send_err_raises e = false -> tsize_raises e = false -> close_file_raises e = false ->
+  count_act is_uncaught (run_transfer e) = 0.
+Proof.
+  intros [so hr ts xe se cf ws wf]; cbn [send_err_raises tsize_raises close_file_raises]. intros -> -> ->.
+  destruct so, hr, xe, ws, wf; reflexivity.
+Qed.
+Print Assumptions C20_transfer_clean_without_faults.
+
+Theorem C20_transfer_escape_not_demanded : forall (e : env) (a b c d : nat),
+  valid (Xfer e) -> holds (Xfer e) (OXfer [a; b; c; d; 1]) = [] -> holds (Xfer e) (OXfer [a; b; c; d; 0]) = [].
+Proof.
+  intros e a b c d _. unfold holds, nth0. cbn [nth].
+  destruct (Nat.eqb a _), (Nat.eqb b _), (Nat.eqb c 1); cbn; try discriminate.
+  destruct (count_act is_uncaught (run_transfer e)); cbn; [discriminate | reflexivity].
+Qed.
+Print Assumptions C20_transfer_escape_not_demanded.
+
 Example C20_nonvacuous_xfer :
   run_transfer {| sock_ok := true; hres := HFile; tsize_raises := false; xend := XInvalidPacket;
                   send_err_raises := true; close_file_raises := false; with_sock := true; with_file := true |}
